@@ -680,8 +680,11 @@ func init() {
 		runSubScenario(c, "c07-serve-ended-on-read-error",
 			"a handler waits for its request context, the only Serve call ends on a permanent read error, then Shutdown",
 			"Shutdown cancels the request contexts and returns nil only after every started handler has finished, also when no listener is registered any more")
+		runSubScenario(c, "c07-queued-on-mutex",
+			"a Serve call and a Shutdown call queue on the server's mutex (held through the verif hook VerifHoldServer) and get it in either order",
+			"once Shutdown has been requested every later Serve call returns ErrServerShutdown; Shutdown returns nil only after every Serve call has returned")
 		c.Trivial("no-shutdown")
 		c.Flush()
-		c.RequireTags("with-shutdown", "directed", "shutdown-in-register-window", "c07-received-before-shutdown", "c07-shared-listener", "c07-plain-close-error", "c07-serve-ended-on-read-error")
+		c.RequireTags("with-shutdown", "directed", "shutdown-in-register-window", "c07-queued-on-mutex", "c07-received-before-shutdown", "c07-shared-listener", "c07-plain-close-error", "c07-serve-ended-on-read-error")
 	}
 }
